@@ -13,6 +13,16 @@ def render(case):
     return "\t".join(case)
 
 
+def id13_from_squawk(a, b, c, d):
+    """octal digits A B C D -> 13-bit identity field C1 A1 C2 A2 C4 A4 X B1 D1 B2 D2 B4 D4 (MSB first)"""
+    bits = [c & 1, a & 1, (c >> 1) & 1, (a >> 1) & 1, (c >> 2) & 1, (a >> 2) & 1, 0,
+            b & 1, d & 1, (b >> 1) & 1, (d >> 1) & 1, (b >> 2) & 1, (d >> 2) & 1]
+    v = 0
+    for x in bits:
+        v = (v << 1) | x
+    return v
+
+
 def opts_str(d):
     if not d:
         return "-"
@@ -262,6 +272,22 @@ class Gen:
         body = "".join(r.choice(fill) for _ in range(offset)) + ch
         body += "".join(r.choice(fill) for _ in range(r.randint(0, 90) if tail is None else tail))
         return body.encode("utf-8")
+
+    def odd_frame(self, df, icao):
+        """a frame of ANY downlink format 0..31 that the reader files under [icao]: the supported formats as usual, every
+        other format with the address in bits 9-32 (no parity check applies to them) and the length its DF calls for"""
+        r = self.r
+        if df in (0, 4, 5):
+            return self.f_short(df, icao)
+        if df == 11:
+            return self.f_df11(icao)
+        if df in (16, 20, 21):
+            return self.f_long(df, icao)
+        if df in (17, 18):
+            return self.f_df17(icao, self.me_random_tc(), df=df)
+        nb = 56 if df < 16 else 112
+        v = (df << (nb - 5)) | (r.getrandbits(3) << (nb - 8)) | (icao << (nb - 32)) | r.getrandbits(nb - 32)
+        return "%0*X" % (nb // 4, v)
 
     def junk_line(self):
         r = self.r
